@@ -38,7 +38,7 @@ REQUIRED_MONITORS = ['steps:normal_mode_checked', 'steps:regenerating_checked', 
                      'followup:same_process_pass', 'runs:forked', 'runs:argv_driven', 'runs:api_driven']
 REQUIRED_CLASSES = ['actual_path=source-parquet', 'assert=string', 'assert=textfile', 'assert=textfiles', 'assert=binary', 'assert=df_parquet',
                     'assert=df_csv', 'assert=ondisk', 'mode=normal', 'mode=all', 'mode=kinds', 'ref=match', 'ref=differ',
-                    'ref=missing'] + ['spelling=%s' % s for s in ('-W', '--write-all', '--W', '-w', '--w', '--write', 'pytest --write-all', 'pytest --write')]
+                    'ref=missing'] + ['spelling=%s' % s for s in ('-W', '--write-all', '--W', '-w', '--w', '--write', 'pytest --write-all', 'pytest --write', 'kinds+write-all')]
 KINDS = [None, 'csv', 'table', 'graph', 'other', 'DEFAULT', 'parquet', 'text']
 TEXTS = ['one line\n', 'a\nb\nc\n', 'no final newline', '', 'crlf line\r\nsecond\r\n', 'Ünïcode 日本\nline2\n', '\n\nblank lines\n\n',
          'tabs\tand  spaces \n', 'x' * 300 + '\n']
@@ -111,6 +111,17 @@ def gen_setting(rng, i):
             # single-dash tdda flags are only recognised before the first long option (position of a
             # single-dash flag after a long one is an unspecified spelling)
             argv = [a for a in argv if not a.startswith('--')] + [a for a in argv if a.startswith('--')]
+            if rng.random() < 0.4:
+                # write-all given together with a list of named kinds, before or after it: write-all is in force, so every kind is selected
+                wa = rng.choice(['--write-all', '--W'])
+                spw = rng.choice(['-w', '--w', '--write'])
+                named = spell_kinds(rng, rng.sample(['csv', 'table', 'graph', 'other', 'parquet', 'text'], rng.choice([1, 2])))
+                front = [a for a in pre if not a.startswith('--')] + [a for a in pre if a.startswith('--')]
+                if spw != '-w' and rng.random() < 0.4:
+                    argv = front + [wa, spw] + named
+                else:
+                    argv = front + [spw] + named + [wa]
+                sp = 'kinds+write-all'
         elif mode == 'kinds':
             sp = rng.choice(['-w', '--w', '--write'])
             argv = [a for a in pre if not a.startswith('--')] + [a for a in pre if a.startswith('--')] + [sp] + \
